@@ -106,7 +106,9 @@ def run_unit(name, mod, only_props, tier):
 
     # ---- polynomial-valued functions
     for fname, c in getattr(mod, "FUNCTIONS", {}).items():
-        ob = new_ob(_slug(fname), " :: ".join(c["item"]), c.get("clause", "postcondition polynomials lie in the ideal of the hypotheses (see contracts.py)"))
+        ob = new_ob(_slug(fname), " :: ".join(c["item"]), c.get("clause", "postcondition polynomials lie in the ideal of the hypotheses (see contracts.py)"), c.get("props"))
+        if c.get("witness"):
+            ob.witness = c["witness"]
         t0 = time.time()
         try:
             body, header = fn_body(read(c.get("file", mod.FILE)), c["item"], c.get("closure"))
@@ -307,6 +309,32 @@ def run_unit(name, mod, only_props, tier):
                                  "nothing establishes them at the new site" % (callee, extra, want))
         except rs.ScanError as e:
             ob = new_ob(_slug(fname), "call sites", "call-site ledger")
+            ob.status = UNDECIDED
+            ob.detail = "lost anchor: %s" % e
+
+    # ---- panicking-callee ledger: a call to an API documented to panic on some argument is preceded, in the
+    # same function, by the guard that rules that argument out
+    for fname, c in getattr(mod, "PANICSITES", {}).items():
+        ob = new_ob(_slug(fname), " :: ".join(c["item"]), c["clause"], c.get("props"))
+        if c.get("witness"):
+            ob.witness = c["witness"]
+        try:
+            text = read(c.get("file", mod.FILE))
+            it = rs.find_item(text, c["item"])
+            body = rs.fn_body_text(text, it)
+            info["edits"].append("scan the body of %s :: %s for the call %r and its guard %r" % (c.get("file", mod.FILE), " :: ".join(c["item"]), c["call"], c["guard"]))
+            ob.vcs = 1
+            calls = [m_.start() for m_ in re.finditer(c["call"], body)]
+            if not calls:
+                ob.status = DISCHARGED          # the panicking call is gone
+                ob.detail = "no call matching %r in the body" % c["call"]
+            elif all(re.search(c["guard"], body[:pos]) for pos in calls):
+                ob.status = DISCHARGED
+            else:
+                ob.status = UNDECIDED
+                ob.detail = ("unregistered call site: the body calls %r (%s) without the guard %r before it; nothing establishes the callee's precondition"
+                             % (c["call"], c["why"], c["guard"]))
+        except rs.ScanError as e:
             ob.status = UNDECIDED
             ob.detail = "lost anchor: %s" % e
 
